@@ -318,16 +318,16 @@ impl Handle for MatcherHandle {
             return false;
         }
 
-        // don't consider changes that don't have both the table + col in the matcher query
+        // don't consider changes to tables that are not in the matcher query.
+        // any column counts: a change to a column the query does not read can
+        // still be what creates the row (plain inserts have no sentinel change)
         if !self
             .inner
             .parsed
             .table_columns
-            .get(change.table.as_str())
-            .map(|cols| change.column.is_crsql_sentinel() || cols.contains(change.column.as_str()))
-            .unwrap_or_default()
+            .contains_key(change.table.as_str())
         {
-            trace!("could not match against parsed query table and columns");
+            trace!("could not match against parsed query tables");
             return false;
         }
 
